@@ -1,7 +1,197 @@
 import H5V.Proto
-/- engine `rcdom` (stub) -/
-namespace H5V.Model.DomDriver
+import H5V.Model.Dom
+/- engine `rcdom`: replay of a TreeSink call trace on the model of RcDom.
 
-def runCase (_fields : List String) : String := "unimplemented"
+   case  = `rcdom<TAB>ops<TAB>op;op;…`   (`-` = no ops)
+   Nodes are named by *handle numbers*: h0 = the document, every `create_*` call yields the next
+   number (a template element yields two: the element, then its template contents).  Text nodes
+   made by the sink and clones have no handle.
+   ops (fields separated by `,`; strings hex; qualified name `prefix/ns/local`, prefix `~` = None;
+   attribute list `qn=value&qn=value` or `-`; child = `n<h>` | `t<hex>`):
+     pe,<msg>  doc  en,<h>  ce,<qn>,<flags: subset of tmd or ->,<attrs>  cc,<text>  cp,<target>,<data>
+     ap,<parent>,<child>  abp,<element>,<prev>,<child>  dt,<name>,<public>,<system>  ms,<h>  pop,<h>
+     tc,<h>  sn,<x>,<y>  qm,<q|l|n>  abs,<sibling>,<child>  aa,<h>,<attrs>  af,<t>,<form>,<node>,<prev|->
+     rm,<h>  rc,<node>,<newparent>  ip,<h>  ln,<decimal>  adsr,<h>  ads,<loc>,<template>,<attrs>  mc,<h>
+   output = `r;r;…@N=…@Q=…@E=…@S=…` — per op `ok` | `h<k>` | `T` | `F` | `n:<ns>/<local>` |
+   `PANIC:<class>` (the replay stops there, no dump), prefixed by `!` when the call violates
+   `Contract`; N = every node in canonical numbering (handles first, then breadth-first discovery
+   through child lists) `num#data#template-contents#parent#children`; S = for every parentless
+   handle the serializer calls (`ChildrenOnly` for documents, `IncludeNode` otherwise). -/
+namespace H5V.Model.DomDriver
+open H5V.Proto H5V.Model.Dom
+
+def parseStr? (s : String) : Option Str := parseChars? s
+
+def parseQual? (s : String) : Option QualName :=
+  match s.splitOn "/" with
+  | [p, ns, loc] => do
+    let pfx ← if p == "~" then some none else (parseStr? p).map some
+    let ns ← parseStr? ns
+    let loc ← parseStr? loc
+    some { pfx := pfx, ns := ns, loc := loc }
+  | _ => none
+
+def parseAttrs? (s : String) : Option (List Attr) :=
+  if s == "-" then some [] else
+  (s.splitOn "&").mapM (fun a =>
+    match a.splitOn "=" with
+    | [q, v] => do
+      let q ← parseQual? q
+      let v ← parseStr? v
+      some { name := q, value := v }
+    | _ => none)
+
+def parseFlags? (s : String) : Option ElementFlags :=
+  if s == "-" then some {} else
+  if s.toList.all (fun c => c == 't' || c == 'm' || c == 'd') then
+    some { template := s.toList.contains 't', mathmlIP := s.toList.contains 'm',
+           hadDuplicateAttributes := s.toList.contains 'd' }
+  else none
+
+structure St where
+  dom : Dom
+  handles : Array Id
+
+def handle? (st : St) (s : String) : Option Id := do
+  let k ← s.toNat?
+  st.handles[k]?
+
+def parseChild? (st : St) (s : String) : Option NodeOrText :=
+  match s.toList with
+  | 'n' :: rest => (handle? st (String.ofList rest)).map .node
+  | 't' :: rest => (parseStr? (String.ofList rest)).map .text
+  | _ => none
+
+def parseQuirks? : String → Option QuirksMode
+  | "q" => some .quirks | "l" => some .limitedQuirks | "n" => some .noQuirks | _ => none
+
+def parseOp? (st : St) (op : String) : Option SinkOp :=
+  match op.splitOn "," with
+  | ["pe", m] => (parseStr? m).map .parseError
+  | ["doc"] => some .getDocument
+  | ["en", h] => (handle? st h).map .elemName
+  | ["ce", q, f, a] => do some (.createElement (← parseQual? q) (← parseAttrs? a) (← parseFlags? f))
+  | ["cc", t] => (parseStr? t).map .createComment
+  | ["cp", t, d] => do some (.createPi (← parseStr? t) (← parseStr? d))
+  | ["ap", p, c] => do some (.append (← handle? st p) (← parseChild? st c))
+  | ["abp", e, p, c] => do some (.appendBasedOnParentNode (← handle? st e) (← handle? st p) (← parseChild? st c))
+  | ["dt", n, p, s] => do some (.appendDoctypeToDocument (← parseStr? n) (← parseStr? p) (← parseStr? s))
+  | ["ms", h] => (handle? st h).map .markScriptAlreadyStarted
+  | ["pop", h] => (handle? st h).map .pop
+  | ["tc", h] => (handle? st h).map .getTemplateContents
+  | ["sn", x, y] => do some (.sameNode (← handle? st x) (← handle? st y))
+  | ["qm", m] => (parseQuirks? m).map .setQuirksMode
+  | ["abs", s, c] => do some (.appendBeforeSibling (← handle? st s) (← parseChild? st c))
+  | ["aa", h, a] => do some (.addAttrsIfMissing (← handle? st h) (← parseAttrs? a))
+  | ["af", t, f, n, p] => do
+      let p ← if p == "-" then some none else (handle? st p).map some
+      some (.associateWithForm (← handle? st t) (← handle? st f) (← handle? st n) p)
+  | ["rm", h] => (handle? st h).map .removeFromParent
+  | ["rc", n, p] => do some (.reparentChildren (← handle? st n) (← handle? st p))
+  | ["ip", h] => (handle? st h).map .isMathmlAnnotationXmlIntegrationPoint
+  | ["ln", n] => n.toNat?.map .setCurrentLine
+  | ["adsr", h] => (handle? st h).map .allowDeclarativeShadowRoots
+  | ["ads", l, t, a] => do some (.attachDeclarativeShadow (← handle? st l) (← handle? st t) (← parseAttrs? a))
+  | ["mc", h] => (handle? st h).map .maybeCloneAnOptionIntoSelectedcontent
+  | _ => none
+
+def showHandle (st : St) (id : Id) : String :=
+  match st.handles.toList.idxOf? id with
+  | some k => "h" ++ toString k
+  | none => "h?"
+
+def errClass (e : String) : String := (e.splitOn ":").headD "?"
+
+/-- run one op: `none` = malformed, otherwise (new state, output token, panicked?) -/
+def runOp (st : St) (op : String) : Option (St × String × Bool) := do
+  let sop ← parseOp? st op
+  let flag := if st.dom.contractOk sop then "" else "!"
+  match st.dom.apply sop with
+  | .error e => some (st, flag ++ "PANIC:" ++ errClass e, true)
+  | .ok (d, out) =>
+    match sop, out with
+    | .createElement .., .node id =>
+      let hs := st.handles.push id
+      let hs := match d.templateContentsOf id with | some tc => hs.push tc | none => hs
+      some ({ dom := d, handles := hs }, flag ++ "h" ++ toString st.handles.size, false)
+    | .createComment _, .node id | .createPi _ _, .node id =>
+      some ({ dom := d, handles := st.handles.push id }, flag ++ "h" ++ toString st.handles.size, false)
+    | _, .node id => some ({ st with dom := d }, flag ++ showHandle st id, false)
+    | _, .unit => some ({ st with dom := d }, flag ++ "ok", false)
+    | _, .bool b => some ({ st with dom := d }, flag ++ (if b then "T" else "F"), false)
+    | _, .name ns loc => some ({ st with dom := d }, flag ++ "n:" ++ Dom.hexStr ns ++ "/" ++ Dom.hexStr loc, false)
+
+/-- canonical numbering: the handles, then breadth-first discovery through child lists -/
+def discover (d : Dom) : Nat → Nat → Array Id → Array Id
+  | 0, _, order => order
+  | fuel + 1, i, order =>
+    match order[i]? with
+    | none => order
+    | some x =>
+      let order := (d.childrenOf x).foldl (fun (o : Array Id) c => if o.contains c then o else o.push c) order
+      discover d fuel (i + 1) order
+
+def numOf (order : Array Id) (id : Id) : String :=
+  match order.toList.idxOf? id with
+  | some k => toString k
+  | none => "?"
+
+def showNodes (d : Dom) (order : Array Id) : String :=
+  "|".intercalate (order.toList.zipIdx.map (fun (id, k) =>
+    match d.node? id with
+    | none => toString k ++ "#?"
+    | some n =>
+      toString k ++ "#" ++ Dom.dataStr n.data ++ "#"
+        ++ (match n.data with | .element _ _ (some tc) _ => numOf order tc | _ => "-") ++ "#"
+        ++ (match n.parent with | none => "-" | some p => numOf order p) ++ "#"
+        ++ (if n.children.isEmpty then "-" else " ".intercalate (n.children.map (numOf order)))))
+
+def showEvent (d : Dom) : SerEvent → String
+  | .startElem x => match d.dataOf x with
+      | some (.element n as _ _) => "S" ++ Dom.qualNameStr n ++ "[" ++ Dom.attrsStr as ++ "]"
+      | _ => "S?"
+  | .endElem n => "E" ++ Dom.qualNameStr n
+  | .doctype x => match d.dataOf x with | some (.doctype n _ _) => "D" ++ Dom.hexStr n | _ => "D?"
+  | .text x => match d.dataOf x with | some (.text s) => "T" ++ Dom.hexStr s | _ => "T?"
+  | .comment x => match d.dataOf x with | some (.comment s) => "C" ++ Dom.hexStr s | _ => "C?"
+  | .pi x => match d.dataOf x with | some (.pi t c) => "P" ++ Dom.hexStr t ++ "," ++ Dom.hexStr c | _ => "P?"
+
+def showSer (st : St) : String :=
+  "|".intercalate (st.handles.toList.zipIdx.filterMap (fun (id, k) =>
+    match st.dom.node? id with
+    | none => none
+    | some n =>
+      if n.parent.isSome then none else
+      let scope := match n.data with | .document => TraversalScope.childrenOnly | _ => .includeNode
+      some ("h" ++ toString k ++ ":" ++
+        (match st.dom.serialize scope id with
+         | .ok ev => if ev.isEmpty then "-" else "+".intercalate (ev.map (showEvent st.dom))
+         | .error e => "PANIC:" ++ errClass e))))
+
+def showQuirks : QuirksMode → String
+  | .quirks => "quirks" | .limitedQuirks => "limited" | .noQuirks => "no"
+
+def finalDump (st : St) : String :=
+  let order := discover st.dom (st.dom.size + 1) 0 st.handles
+  "@N=" ++ showNodes st.dom order
+    ++ "@Q=" ++ showQuirks st.dom.quirks
+    ++ "@E=" ++ (if st.dom.errorsRev.isEmpty then "-" else "|".intercalate (st.dom.errorsRev.reverse.map Dom.hexStr))
+    ++ "@S=" ++ showSer st
+
+def runOps (st : St) (outs : List String) : List String → String
+  | [] => ";".intercalate outs.reverse ++ finalDump st
+  | op :: ops =>
+    match runOp st op with
+    | none => "bad-op"
+    | some (st', o, panicked) =>
+      if panicked then ";".intercalate (o :: outs).reverse
+      else runOps st' (o :: outs) ops
+
+def runCase (fields : List String) : String :=
+  match fields with
+  | ["ops", ops] =>
+    let st : St := { dom := Dom.new, handles := #[Dom.document] }
+    if ops == "-" then runOps st [] [] else runOps st [] (ops.splitOn ";")
+  | _ => "bad-case"
 
 end H5V.Model.DomDriver
